@@ -567,6 +567,18 @@ fn main() {
                     .cloned()
                     .or_else(|| p.downcast_ref::<&str>().map(|s| s.to_string()))
                     .unwrap_or_default();
+                // the replay scheduler's own complaints mean the code under test now makes different
+                // scheduling decisions than when the file was recorded: that is "not reproduced", not a verdict
+                let mismatch = [
+                    "schedule ended early",
+                    "expected context switch but next schedule step is random choice",
+                    "expected random choice but next schedule step is context switch",
+                    "scheduled task is not runnable",
+                ];
+                if mismatch.iter().any(|m| msg.contains(m)) {
+                    println!("replay: the recorded schedule does not fit this tree (the code takes different scheduling steps): not reproduced");
+                    std::process::exit(0);
+                }
                 println!("reproduced: {}", msg.lines().next().unwrap_or(""));
                 std::process::exit(1);
             }
